@@ -14,7 +14,10 @@ random signs, all negative, zero; sum|phi| from 0.3 to 1.5) x means / initial va
 default or explicit x series lengths {0,1,2,3,order,order+1,10,200} (thorough: up to 3000) x value classes
 (normal, integer, huge, constant) x NaN layouts (none, first step, inside the first `order` steps, a run
 longer than the order, 10% random, last, all); a separate malformed stream (order 0/11+, NaN coefficient,
-NaN mean, NaN initial value, several at once).
+NaN mean, NaN initial value, several at once); a history stream: 2-4 calls on the SAME argument objects with in-place
+edits of the series / the coefficients / the returned arrays between calls, interleaved calls with other arguments of
+equal sizes, results of earlier calls fed back later, pickled / deep-copied arguments — every answer compared with the
+model and the oracle on the state at the time of the call.
 A case is non-trivial when the call is accepted, the series is non-empty and some coefficient is non-zero.
 """
 import json
@@ -247,6 +250,7 @@ class Runner:
         self.guards = guard_table()
         self.reqs, self.impls, self.cases, self.kinds = [], [], [], []
         self.qreqs = []      # (request, impl float list, tolerance list, case)
+        self.mreqs = []      # (nanmean request, numpy value, tolerance, case)
         self.stats = {}
 
     def stat(self, k, n=1):
@@ -482,6 +486,8 @@ class Runner:
                  {**base, "form": rform, "inputs": inputs, "tag": tag},
                  f"residual/{ordtag}/{'accepted' if r_res[0] == 'ok' else 'rejected'}", nontriv and not czr, czr)
         self.oracle_validation("residual", czr, r_res, {**base, "form": rform, "n": len(inputs)})
+        if len(inputs) <= 200:
+            self.data_mean_requests(phi, inputs, nm, rform, m, ini, r_res, {**base, "form": rform, "inputs": inputs, "tag": tag})
         if r_res[0] != "ok" or czr:
             return
         res = r_res[1]
@@ -549,6 +555,259 @@ class Runner:
                                  "sim(residual(y)) differs from y at a position where y is present",
                                  {**case, "residuals": res}, r_fwd[1], want, tol, mask=informative & ~miss)
 
+    def data_mean_requests(self, phi, inputs, nm, rform, m, ini, r_res, case):
+        """the model's own data mean (sequential sum) against numpy.nanmean; when both have the same bits (or are
+        both undefined) the wrapper model that computes the mean itself is compared with the call as made"""
+        present = [x for x in inputs if x == x]
+        if any(math.isinf(x) for x in present):
+            return
+        tol = 4 * (len(present) + 2) * U * (sum(abs(x) for x in present) / max(len(present), 1)) + 1e-300
+        self.mreqs.append((f"nanmean {C.flist(inputs)}", nm, tol, case))
+        seq = 0.0
+        for x in present:
+            seq = seq + x
+        seq = seq / len(present) if present else NAN
+        if C.f2h(seq) == C.f2h(nm) and not (present and not math.isfinite(seq)):
+            mt, it = self.argtok(rform, m, ini)
+            self.add(f"pyresd {C.flist(phi)} {C.flist(inputs)} {mt} {it}", r_res, case,
+                     f"residual_model_data_mean/order={len(phi) if len(phi) <= 11 else '12+'}", r_res[0] == "ok" and len(inputs) > 0,
+                     causes(phi, m if rform[0] == "m" else nm, (ini if (rform[-1] == "i" and rform != "m") else (m if rform[0] == "m" else nm))))
+        if len(inputs) <= 12 and rform[0] == "d" and all(abs(x) < 1e200 for x in present):
+            p = len(phi)
+            mtq = "none"
+            itq = C.rat(ini) if (rform[-1] == "i" and rform != "m") else "none"
+            if r_res[0] == "ok":
+                S = (1 + sum(abs(x) for x in phi)) * (max([abs(x) for x in present] + [abs(ini), abs(nm) if nm == nm else 0.0]) * 2)
+                tolq = [(8 * (p + 4) + 4 * len(inputs)) * U * S + 1e-300] * len(inputs)
+                self.qreqs.append(("pyresdq " + C.slist(C.rat(x) for x in phi) + " " +
+                                   C.slist("nan" if x != x else C.rat(x) for x in inputs) + f" {mtq} {itq}", r_res[1], tolq, case))
+
+    # ---- histories on one set of argument objects
+    def hcall(self, kind, pa, arr, m, ini, label, hist, expect_e0=None, expect_y=None):
+        """one call of the real code on the argument OBJECTS as they are now; the request for the model and the
+        oracle are built from their current contents"""
+        np = self.np
+        phi = [float(x) for x in np.atleast_1d(pa)]
+        cur = [float(x) for x in arr]
+        fn = self.am.armodel_sim if kind == "sim" else self.am.armodel_residual
+        try:
+            with warnings.catch_warnings():
+                warnings.simplefilter("ignore")
+                out = fn(pa, arr, m, ini)
+            res = ("ok", [float(x) for x in np.asarray(out, dtype=np.float64).ravel()])
+        except ValueError as e:
+            mm = re.search(r"returns (\d+)", str(e))
+            res = ("err", self.guards.get(int(mm.group(1)), "other") if mm else "other:ValueError")
+            out = None
+        except Exception as e:  # noqa
+            res = ("err", "other:" + type(e).__name__)
+            out = None
+        case = {"params": phi, "mean": m, "ini": ini, ("innov" if kind == "sim" else "inputs"): cur,
+                "history": hist, "step": label}
+        op = "pysim" if kind == "sim" else "pyres"
+        req = (f"pysim {C.flist(phi)} {C.flist(cur)} {C.f2h(m)} {C.f2h(ini)}" if kind == "sim"
+               else f"pyres {C.flist(phi)} {C.flist(cur)} nan {C.f2h(m)} {C.f2h(ini)}")
+        self.add(req, res, case, f"history/{hist}/{label}", res[0] == "ok" and len(cur) > 0)
+        del op
+        if res[0] != "ok":
+            self.ctx.finding(f"history/{hist}/rejects_valid", "a valid call was rejected in the course of a history of calls", {**case, "reply": res[1]})
+            return res, out
+        if len(res[1]) != len(cur):
+            self.ctx.finding(f"history/{hist}/length", "output length differs from the series", case)
+            return ("err", "length"), out
+        if kind == "sim":
+            e0 = [0.0 if x != x else x for x in cur]
+            self.check_recursion_sig(f"history/{hist}/sim_recursion", case, phi, m, ini, e0, res[1])
+        else:
+            miss = np.array([x != x for x in cur], dtype=bool)
+            if miss.any():
+                big = (1 + sum(abs(x) for x in phi)) * (max([abs(x) for x in cur if x == x] + [abs(m), abs(ini)]) + abs(m))
+                # generous magnitude bound (runs of missing values grow at most by sum|phi| per step)
+                grow = max(1.0, sum(abs(x) for x in phi)) ** len(cur)
+                self.check_close(f"history/{hist}/missing_input_not_zero", "the residual at a missing input is not zero (history of calls)",
+                                 case, res[1], np.zeros(len(cur)), np.full(len(cur), 4 * (len(phi) + 2) * U * big * grow + 1e-300), mask=miss)
+        if expect_y is not None and len(cur) and np.isfinite(np.asarray(cur)).all():
+            A = amplification(phi, len(cur))
+            S = (1 + sum(abs(x) for x in phi)) * (max(abs(x) for x in expect_y) + abs(m) + abs(ini) + max(abs(x) for x in cur))
+            tol = (A * 4 * (len(phi) + 3) + 8) * U * S + 1e-300
+            self.check_close(f"history/{hist}/sim_of_residual", "sim(residual(y)) differs from y in the course of a history of calls "
+                             "(the residual series was returned by an earlier call)", {**case, "expected": list(expect_y)},
+                             res[1], expect_y, tol, mask=(A * 4 * (len(phi) + 3) * U < 1e-7))
+        if expect_e0 is not None:
+            ya = np.asarray(cur)
+            ok = np.isfinite(ya).all()
+            if ok:
+                pth = len(phi)
+                with np.errstate(all="ignore"):
+                    L = self.lagged(ya, m, ini, pth)
+                    scale = np.abs(ya) + abs(m) + np.abs(np.asarray(expect_e0)) + (np.abs(L) + abs(m)) @ np.abs(np.asarray(phi))
+                    tol = 8 * (pth + 4) * U * scale + 1e-300
+                self.check_close(f"history/{hist}/residual_of_sim", "residual(sim(e)) differs from e in the course of a history of calls "
+                                 "(the simulated series was returned by an earlier call)", {**case, "expected": list(expect_e0)},
+                                 res[1], expect_e0, tol)
+        return res, out
+
+    def check_recursion_sig(self, sig, case, phi, m, ini, e0, y):
+        np = self.np
+        p, n = len(phi), len(y)
+        if n == 0:
+            return
+        y, e0, ph = np.asarray(y), np.asarray(e0), np.asarray(phi)
+        with np.errstate(all="ignore"):
+            L = self.lagged(y, m, ini, p)
+            pred = (L - m) @ ph + e0
+            scale = np.abs(y) + abs(m) + np.abs(e0) + (np.abs(L) + abs(m)) @ np.abs(ph)
+            tol = 8 * (p + 4) * U * scale + 1e-300
+            ok = np.isfinite(scale) & np.isfinite(pred) & (scale < 1e290)
+            bad = ok & (np.abs((y - m) - pred) > tol)
+        self.stat("oracle_history_recursion_steps", int(ok.sum()))
+        if bad.any():
+            t = int(np.argmax(bad))
+            self.ctx.finding(sig, "armodel_sim output does not satisfy the AR recursion on the CURRENT arguments (history of calls)",
+                             {**case, "t": t, "got": float(y[t] - m), "required": float(pred[t])})
+
+    def history(self, rng):
+        """2-4 calls on the same argument objects with in-place edits, other calls, copies in between; every answer
+        is compared with the model and the oracle on the state at the time of the call"""
+        import copy
+        import pickle
+        np = self.np
+        p = rng.randint(1, 10)
+        n = rng.choice([1, 2, 3, 5, 8, 20, p, p + 1])
+        kind = rng.choice(PARAM_KINDS[:-1])
+        pa = np.array(gen_params(rng, p, kind, rng.choice([0.3, 0.6, 0.9])), dtype=np.float64)
+        m, ini = gen_mean_ini(rng)
+        if abs(m) > 1e5:
+            m = 20.0
+        vcl = rng.choice(["normal", "int", "small", "big"])
+        e = np.array(put_nan(rng, gen_values(rng, n, vcl), p, rng.choice(["none", "none", "first", "random"])), dtype=np.float64)
+        hist = rng.choice(["edit_input", "edit_params", "edit_returned", "interleave", "interleave_residual", "sim_edit_residual",
+                           "residual_edit_input", "copies", "swap_roles"])
+
+        def e0_of(a):
+            return [0.0 if x != x else float(x) for x in a]
+
+        if hist == "edit_input":
+            r1, y1 = self.hcall("sim", pa, e, m, ini, "call1", hist)
+            e[rng.randrange(n)] = rng.choice([NAN, 7.0, -3.5])
+            if n > 1:
+                e[-1] = e[-1] + 1.0 if e[-1] == e[-1] else 2.0
+            r2, y2 = self.hcall("sim", pa, e, m, ini, "call2_after_inplace_edit_of_input", hist)
+            e[:] = np.array(gen_values(rng, n, "int"))
+            self.hcall("sim", pa, e, m, ini, "call3_after_full_overwrite_same_size", hist)
+        elif hist == "edit_params":
+            self.hcall("sim", pa, e, m, ini, "call1", hist)
+            pa[:] = np.array(gen_params(rng, p, rng.choice(PARAM_KINDS[:-1]), 0.6))
+            self.hcall("sim", pa, e, m, ini, "call2_after_inplace_edit_of_params", hist)
+            x = np.array(gen_values(rng, n, "normal")) + m
+            self.hcall("res", pa, x, m, ini, "call3_residual_same_params_object", hist)
+            pa[rng.randrange(p)] = -0.25
+            self.hcall("res", pa, x, m, ini, "call4_after_second_edit_of_params", hist)
+        elif hist == "edit_returned":
+            r1, y1 = self.hcall("sim", pa, e, m, ini, "call1", hist)
+            if y1 is not None:
+                y1 *= -3.0
+                y1 += 11.0
+            r2, y2 = self.hcall("sim", pa, e, m, ini, "call2_after_inplace_edit_of_returned_array", hist)
+            x = np.array(gen_values(rng, n, "normal")) + m
+            r3, o3 = self.hcall("res", pa, x, m, ini, "call3_residual", hist)
+            if o3 is not None:
+                o3[:] = 99.0
+            self.hcall("res", pa, x, m, ini, "call4_after_inplace_edit_of_returned_residuals", hist)
+        elif hist == "interleave":
+            first_e0 = e0_of(e)
+            r1, y1 = self.hcall("sim", pa, e, m, ini, "call1", hist)
+            pb = np.array(gen_params(rng, p, rng.choice(PARAM_KINDS[:-1]), 0.9), dtype=np.float64)
+            e2 = np.array(gen_values(rng, n, "big"), dtype=np.float64)
+            self.hcall("sim", pb, e2, m + 1.0, ini - 2.0, "call2_other_arguments_same_sizes", hist)
+            if y1 is not None and r1[0] == "ok":
+                # y1 is the array object returned by the FIRST call
+                self.hcall("res", pa, y1, m, ini, "call3_residual_of_first_result", hist, expect_e0=first_e0)
+            self.hcall("sim", pa, e, m, ini, "call4_first_arguments_again", hist)
+        elif hist == "interleave_residual":
+            x1 = np.array([v + m for v in gen_values(rng, n, vcl)], dtype=np.float64)
+            first_y = [float(v) for v in x1]
+            r1, q1 = self.hcall("res", pa, x1, m, ini, "call1", hist)
+            pb = np.array(gen_params(rng, p, rng.choice(PARAM_KINDS[:-1]), 0.9), dtype=np.float64)
+            x2 = np.array(gen_values(rng, n, "big"), dtype=np.float64)
+            self.hcall("res", pb, x2, m - 1.0, ini + 2.0, "call2_other_arguments_same_sizes", hist)
+            if q1 is not None and r1[0] == "ok":
+                # q1 is the array object returned by the FIRST call
+                self.hcall("sim", pa, q1, m, ini, "call3_sim_of_first_result", hist, expect_y=first_y)
+            self.hcall("res", pa, x1, m, ini, "call4_first_arguments_again", hist)
+        elif hist == "sim_edit_residual":
+            r1, y1 = self.hcall("sim", pa, e, m, ini, "call1", hist)
+            if y1 is not None and r1[0] == "ok" and np.isfinite(y1).all():
+                k = rng.randrange(n)
+                y1[k] = NAN
+                if n > 2:
+                    y1[rng.randrange(n)] = NAN
+                self.hcall("res", pa, y1, m, ini, "call2_residual_after_marking_values_missing", hist)
+        elif hist == "residual_edit_input":
+            x = np.array(put_nan(rng, [v + m for v in gen_values(rng, n, vcl)], p, rng.choice(["none", "first", "random"])), dtype=np.float64)
+            form = rng.choice(["dd", "mi"])
+            for step in range(3):
+                cur = [float(v) for v in x]
+                with warnings.catch_warnings():
+                    warnings.simplefilter("ignore")
+                    nm = float(np.nanmean(x)) if n else NAN
+                if form == "dd":
+                    res = self.call(self.am.armodel_residual, [float(v) for v in pa], cur, ((), {}))
+                    # the call above rebuilds arrays; call on the very object as well
+                    try:
+                        with warnings.catch_warnings():
+                            warnings.simplefilter("ignore")
+                            out = self.am.armodel_residual(pa, x)
+                        res = ("ok", [float(v) for v in out])
+                    except ValueError as ex:
+                        mm = re.search(r"returns (\d+)", str(ex))
+                        res = ("err", self.guards.get(int(mm.group(1)), "other") if mm else "other:ValueError")
+                    self.add(f"pyres {C.flist(pa)} {C.flist(cur)} {C.f2h(nm)} none none", res,
+                             {"params": [float(v) for v in pa], "inputs": cur, "history": hist, "step": f"call{step + 1}_default_mean"},
+                             f"history/{hist}/call{step + 1}_default_mean", res[0] == "ok", causes([float(v) for v in pa], nm, nm))
+                    if (res[0] == "ok") != (nm == nm):
+                        self.ctx.finding(f"history/{hist}/default_mean_validation", "default-mean call accepted/rejected against the current data",
+                                         {"params": [float(v) for v in pa], "inputs": cur, "reply": res})
+                else:
+                    self.hcall("res", pa, x, m, ini, f"call{step + 1}", hist)
+                # equal-size in-place edit that changes the data mean
+                x += rng.choice([5.0, -2.5])
+                x[rng.randrange(n)] = rng.choice([NAN, 1.0, 100.0])
+        elif hist == "copies":
+            r1, y1 = self.hcall("sim", pa, e, m, ini, "call1", hist)
+            pa2 = pickle.loads(pickle.dumps(pa))
+            e2 = copy.deepcopy(e)
+            r2, y2 = self.hcall("sim", pa2, e2, m, ini, "call2_pickled_and_deepcopied_arguments", hist)
+            if r1[0] == "ok" and r2[0] == "ok" and C.flist(r1[1]) != C.flist(r2[1]):
+                self.ctx.finding(f"history/{hist}/copy_changes_answer", "copies of the arguments give another answer", {"params": [float(v) for v in pa]})
+            e3 = e[::-1].copy()[::-1]   # same contents, negative-stride view
+            self.hcall("sim", pa, e3, m, ini, "call3_reversed_view_of_reversed_copy", hist)
+        else:  # swap_roles: the same array object used as innovations, then as inputs, then its result fed back
+            first_e0 = e0_of(e)
+            r1, y1 = self.hcall("sim", pa, e, m, ini, "call1_sim", hist)
+            if not np.isnan(e).any():
+                r2, q = self.hcall("res", pa, e, m, ini, "call2_same_array_as_inputs", hist)
+                if q is not None and r2[0] == "ok":
+                    r3, z = self.hcall("sim", pa, q, m, ini, "call3_sim_of_those_residuals", hist)
+            if y1 is not None and r1[0] == "ok":
+                self.hcall("res", pa, y1, m, ini, "call4_residual_of_first_result", hist, expect_e0=first_e0)
+
+    def record_shapes(self):
+        """what the wrappers do with a 0-d or a 2-D [n, p] series (the docstrings mention [n, p]; the Cython layer takes
+        1-D only).  Outside the property's quantifier: recorded in the evidence, never compared, never a finding."""
+        np = self.np
+        out = {}
+        for name, arr in (("0-d", np.array(1.5)), ("2-D [3,2]", np.arange(6.0).reshape(3, 2)), ("2-D [3,1]", np.arange(3.0).reshape(3, 1))):
+            for fn in (self.am.armodel_sim, self.am.armodel_residual):
+                try:
+                    with warnings.catch_warnings():
+                        warnings.simplefilter("ignore")
+                        r = fn(np.array([0.5]), arr, 0.0, 0.0)
+                    out[f"{fn.__name__} {name}"] = f"returns shape {np.shape(r)}"
+                except Exception as e:  # noqa
+                    out[f"{fn.__name__} {name}"] = f"raises {type(e).__name__}"
+        self.ctx.extra["shapes_outside_quantifier"] = out
+
     def oracle_validation(self, fn, cz, res, case):
         if cz and res[0] == "ok":
             self.ctx.finding(f"{fn}/accepts_invalid/{'+'.join(cz)}", "an unsupported order or a NaN parameter / mean / initial value was accepted", case)
@@ -590,7 +849,13 @@ class Runner:
                                         for a, b, t in zip(y, ex, tol)):
                 ctx.disagree("C17: code differs from the exact (Rat) model beyond the rounding budget",
                              {"request": req, "impl": y, "model": [float(v) for v in ex]})
-        self.reqs, self.impls, self.cases, self.kinds, self.qreqs = [], [], [], [], []
+        mrep = ctx.lean.ask([q[0] for q in self.mreqs])
+        for (req, nm, tol, case), rep in zip(self.mreqs, mrep):
+            ctx.count(req, nm == nm, "data_mean")
+            mv = C.h2f(rep)
+            if (mv != mv) != (nm != nm) or (mv == mv and abs(mv - nm) > tol):
+                ctx.disagree("C17: numpy.nanmean and the model's data mean differ", {"request": trunc(req), "numpy": nm, "model": mv, "tol": tol})
+        self.reqs, self.impls, self.cases, self.kinds, self.qreqs, self.mreqs = [], [], [], [], [], []
 
 
 def trunc(s, n=1500):
@@ -657,6 +922,12 @@ def body(ctx):
             for n in lengths:
                 R.run(gen_case(rng, p, kind, s, n))
         R.flush()
+    # history stream: short histories of calls on one set of argument objects
+    for _ in range(ctx.scale(600, 6000)):
+        R.history(rng)
+    R.flush()
+    # shapes outside the quantifier (recorded, never compared): 0-d and 2-D series
+    R.record_shapes()
     # malformed stream
     for _ in range(ctx.scale(300, 3000)):
         R.run(gen_malformed(rng))
@@ -665,7 +936,8 @@ def body(ctx):
     ctx.extra["rule"] = __doc__.split("Cases:")[1].strip()
     ctx.extra["oracle_counts"] = R.stats
     ctx.assumptions += [
-        "numpy.nanmean (default sim_mean of armodel_residual) is external: its value is handed to the model",
+        "numpy.nanmean (default sim_mean of armodel_residual): its value is handed to the wrapper model; the model's own data mean "
+        "(sequential sum) is compared with it within n*u and, where the bits coincide, used in its place",
         "IEEE rounding is executed (Float instance, bit-equal to the kernels built with -ffp-contract=off), not proved; "
         "the theorems are over a commutative ring where no computed value is NaN",
         "the oracle's tolerances are first-order rounding budgets scaled by the AR impulse response; steps whose budget "
@@ -676,6 +948,7 @@ def body(ctx):
 
 def main(tier, replay=None):
     return C.run_check(PID, tier, body, needs_native=True, replay=replay,
+                       level_partial=["float_recursion_statement", "float_residual_sim_statement", "float_sim_residual_statement"],
                        trusted=["numpy.nanmean / astype / atleast_1d (external, compared by result)",
                                 "gcc -O1 -ffp-contract=off build of c_armodels.c from the working tree",
                                 "IEEE-754 double rounding: executed, not proved"])
